@@ -33,6 +33,9 @@ type ProtoSpec struct {
 	// BodyObj makes the object a receiver that takes the body binds to it (default: new([]byte), the
 	// documented codec bypass). Must agree with Receiver when both are set.
 	BodyObj func() interface{}
+	// NoTypedBody reports messages that cannot carry a body of their own (e.g. an HTTP error reply, whose
+	// payload is the status document): the stream check gives those the spec's default body only.
+	NoTypedBody func(m Msg) bool
 }
 
 func GenStatus(t *rapid.T, m *Msg, maxLen int, text func(t *rapid.T, label string, max int) string) {
@@ -293,8 +296,14 @@ func CheckStream(t *rapid.T, spec ProtoSpec, rec *Rec) {
 	Init()
 	k := rapid.IntRange(1, 6).Draw(t, "frames")
 	msgs := make([]Msg, k)
+	// how the body of each frame is handed to Pack and taken from Unpack: the spec's default (raw
+	// bytes, the documented codec bypass) or a typed value that goes through a body codec
+	bodies := make([]frameBody, k)
+	typed := false
 	for i := range msgs {
 		msgs[i] = spec.Gen(t, rec)
+		bodies[i] = spec.genFrameBody(t, &msgs[i])
+		typed = typed || bodies[i].kind != BodyDefault
 	}
 	chunks, cycle := Chunks(t, "chunks")
 	small := len(chunks) > 0 && cycle
@@ -311,19 +320,23 @@ func CheckStream(t *rapid.T, spec ProtoSpec, rec *Rec) {
 	for _, m := range msgs {
 		canon += m.Canon() + "#"
 	}
-	classes := []string{fmt.Sprintf("frames=%d", k), fmt.Sprintf("smallchunks=%v", small), fmt.Sprintf("untaken-body-before-a-frame=%v", untakenBeforeFrame)}
+	classes := []string{fmt.Sprintf("frames=%d", k), fmt.Sprintf("smallchunks=%v", small), fmt.Sprintf("untaken-body-before-a-frame=%v", untakenBeforeFrame), fmt.Sprintf("typed-body=%v", typed)}
+	kinds := make([]BodyKind, k)
 	for i, md := range modes {
+		kinds[i] = bodies[i].kind
 		if !md.takes() {
 			classes = append(classes, "untaken:"+mtypeClass(msgs[i].Mtype))
+		} else {
+			classes = append(classes, "body:"+string(bodies[i].kind))
 		}
 	}
-	rec.Case(canon+fmt.Sprint(chunks, cycle, modes), k >= 2 && (small || untakenBeforeFrame), classes...)
+	rec.Case(canon+fmt.Sprint(chunks, cycle, modes, kinds), k >= 2 && (small || untakenBeforeFrame), classes...)
 	if rec.WantSample() && k >= 2 && (small || untakenBeforeFrame) {
 		ss := []interface{}{}
 		for _, m := range msgs {
 			ss = append(ss, m.Sample())
 		}
-		rec.Sample(map[string]interface{}{"proto": spec.Name, "stream": ss, "chunks": chunks, "cycle": cycle, "receivers": fmt.Sprint(modes)})
+		rec.Sample(map[string]interface{}{"proto": spec.Name, "stream": ss, "chunks": chunks, "cycle": cycle, "receivers": fmt.Sprint(modes), "bodies": fmt.Sprint(kinds)})
 	}
 
 	// pack all frames through ONE protocol instance (shared writer)
@@ -332,14 +345,15 @@ func CheckStream(t *rapid.T, spec ProtoSpec, rec *Rec) {
 	frames := make([][]byte, k)
 	psizes := make([]uint32, k)
 	for i, m := range msgs {
-		f, sz, err := PackOne(spec, wp, wrw, m)
+		fspec := spec.withFrameBody(bodies[i])
+		f, sz, err := PackOne(fspec, wp, wrw, m)
 		if err != nil {
-			t.Fatalf("%s: Pack #%d failed: %v", spec.Name, i, err)
+			t.Fatalf("%s: Pack #%d (body %s) failed: %v", spec.Name, i, bodies[i].kind, err)
 		}
 		frames[i], psizes[i] = f, sz
 		// size independence on the packing side: a fresh instance reports the same size
 		frw := &RW{}
-		_, fsz, err := PackOne(spec, spec.Fn()(frw), frw, m)
+		_, fsz, err := PackOne(fspec, spec.Fn()(frw), frw, m)
 		if err != nil {
 			t.Fatalf("%s: Pack #%d on a fresh instance failed: %v", spec.Name, i, err)
 		}
@@ -355,7 +369,11 @@ func CheckStream(t *rapid.T, spec ProtoSpec, rec *Rec) {
 	// message (reset between frames) in half of the cases, into fresh ones otherwise
 	recycle := len(chunks)%2 == 0
 	var pooled socket.Message
+	// RETENTION: what the receiving side was handed for every frame is kept and compared again
+	// after the whole stream has been decoded and after further traffic in the process
+	var kept []retainedFrame
 	for i, m := range msgs {
+		fspec := spec.withFrameBody(bodies[i])
 		if spec.PerFrame {
 			// one frame per underlying reader (the websocket layer delimits the frames): the frames
 			// are decoded one after the other, each from its own reader, by the generated receivers
@@ -365,7 +383,7 @@ func CheckStream(t *rapid.T, spec ProtoSpec, rec *Rec) {
 		}
 		mode := modes[i]
 		obs := &bindObs{}
-		got := spec.streamReceiver(mode, pooled, obs)
+		got := fspec.streamReceiver(mode, pooled, obs)
 		if recycle {
 			pooled = got
 		}
@@ -378,18 +396,19 @@ func CheckStream(t *rapid.T, spec ProtoSpec, rec *Rec) {
 			}()
 			uerr = rp.Unpack(got)
 		}()
-		how := fmt.Sprintf("frame #%d of %d (receiver: %s; receivers of the stream: %v)", i, k, mode, modes)
+		how := fmt.Sprintf("frame #%d of %d (receiver: %s, body: %s; receivers of the stream: %v, bodies: %v)", i, k, mode, bodies[i].kind, modes, kinds)
 		if uerr != nil {
 			t.Fatalf("C05 violated: %s: %s in a chunked stream failed to decode: %v", spec.Name, how, uerr)
 		}
-		want, opts := m, spec.cmpOpts(m)
+		want, opts := m, fspec.cmpOpts(m)
 		if !mode.takes() {
 			// nobody takes the body: the header fields are still those of the frame
-			want, opts = spec.headerOnly(m)
+			want, opts = fspec.headerOnly(m)
 		}
 		if d := want.Compare(got, opts); d != "" {
 			t.Fatalf("C05 violated: %s: %s in a chunked stream differs: %s", spec.Name, how, d)
 		}
+		kept = append(kept, retain(got, recycle, want, opts, how))
 		if mode.binds() {
 			// the read path of a session decides inside the binder what to do with the frame
 			// (route lookup by service method, pending call by seq, reply metadata handed to the
@@ -407,7 +426,7 @@ func CheckStream(t *rapid.T, spec ProtoSpec, rec *Rec) {
 		}
 		// size independence on the reading side (same kind of receiver, frame alone on a fresh instance)
 		arw := &RW{In: frames[i]}
-		alone := spec.streamReceiver(mode, nil, &bindObs{})
+		alone := fspec.streamReceiver(mode, nil, &bindObs{})
 		if err := spec.Fn()(arw).Unpack(alone); err != nil {
 			t.Fatalf("C05 violated: %s: %s alone failed to decode: %v", spec.Name, how, err)
 		}
@@ -415,27 +434,60 @@ func CheckStream(t *rapid.T, spec ProtoSpec, rec *Rec) {
 			t.Fatalf("C05 violated: %s: reported size of %s depends on preceding traffic: %d in the stream, %d decoded alone", spec.Name, how, got.Size(), alone.Size())
 		}
 	}
-	if spec.PerFrame {
-		return
-	}
-	// the stream is exhausted: the next Unpack must report an error, not a message
-	extra := spec.receiver()
-	var uerr error
-	func() {
-		defer func() {
-			if p := recover(); p != nil {
-				uerr = fmt.Errorf("panic: %v", p)
-			}
+	if !spec.PerFrame {
+		// the stream is exhausted: the next Unpack must report an error, not a message
+		extra := spec.receiver()
+		var uerr error
+		func() {
+			defer func() {
+				if p := recover(); p != nil {
+					uerr = fmt.Errorf("panic: %v", p)
+				}
+			}()
+			uerr = rp.Unpack(extra)
 		}()
-		uerr = rp.Unpack(extra)
-	}()
-	if uerr == nil {
-		t.Fatalf("%s: Unpack on an exhausted stream returned a message", spec.Name)
+		if uerr == nil {
+			t.Fatalf("%s: Unpack on an exhausted stream returned a message", spec.Name)
+		}
 	}
+	// what was decoded stays what it was: after the whole stream ...
+	recheckKept(t, spec, kept, "after the whole stream had been decoded")
+	// ... and after further Pack/Unpack traffic on fresh protocol instances in the same process
+	// (frames of the same sizes with other contents, so that recycled frame buffers are rewritten)
+	for round := 0; round < 2; round++ {
+		for i, m := range msgs {
+			if round > 0 && len(frames[i]) > 8192 {
+				continue // (cost: big frames get one follow-up only)
+			}
+			cm := spec.churnVariant(m, bodies[i], round)
+			crw := &RW{}
+			f, _, err := PackOne(spec, spec.Fn()(crw), crw, cm)
+			if err != nil {
+				t.Fatalf("%s: Pack of the follow-up message #%d failed: %v\nmsg=%v", spec.Name, i, err, cm.Sample())
+			}
+			cgot := spec.receiver()
+			var cerr error
+			func() {
+				defer func() {
+					if p := recover(); p != nil {
+						cerr = fmt.Errorf("panic: %v", p)
+					}
+				}()
+				cerr = spec.Fn()(&RW{In: f}).Unpack(cgot)
+			}()
+			if cerr != nil {
+				t.Fatalf("C05 violated: %s: follow-up message #%d (round %d) failed to decode on a fresh protocol instance: %v\nmsg=%v", spec.Name, i, round, cerr, cm.Sample())
+			}
+			if d := cm.Compare(cgot, spec.cmpOpts(cm)); d != "" {
+				t.Fatalf("C05 violated: %s: follow-up message #%d (round %d) differs after a round trip on fresh protocol instances: %s", spec.Name, i, round, d)
+			}
+		}
+	}
+	recheckKept(t, spec, kept, "after further Pack/Unpack traffic on fresh protocol instances in the same process")
 }
 
 const RuleMsg = "one message per case drawn from the protocol's documented field set (see DESIGN.md C05 table); non-trivial = a text field with a byte outside [A-Za-z0-9], a boundary length, a negative/extreme seq or a non-empty filter pipe; distinct by canonical encoding of all fields"
-const RuleStream = "1-6 back-to-back frames packed through one protocol instance, decoded from the concatenated stream (websocket sub-protocols: frame by frame, one reader each) under a generated read-chunk schedule into fresh messages or one recycled message; per frame the receiver (generated) takes the body through its NewBody binder, takes it into a preset body object, or leaves it untaken (binder returns nil, binder sets a body and then returns nil like a vetoed reply, no binder at all); oracle: a taken frame equals the packed message in every field, an untaken frame in every header field, the binder runs once per frame and sees the frame's seq/type/method/metadata, the reader has consumed exactly the frames so far, sizes equal those of the frame decoded alone by the same kind of receiver, the exhausted stream yields an error; non-trivial = >=2 frames and (a cycling small-chunk schedule or an untaken body followed by another frame)"
+const RuleStream = "1-6 back-to-back frames packed through one protocol instance, decoded from the concatenated stream (websocket sub-protocols: frame by frame, one reader each) under a generated read-chunk schedule into fresh messages or one recycled message; per frame the body is (generated) raw bytes or, where the protocol carries a codec id and a body of its own, a typed value through a body codec (plain codec with *string / named string / **string / *[]byte / named []byte, json codec with a small struct) and the receiver (generated) takes the body through its NewBody binder, takes it into a preset body object, or leaves it untaken (binder returns nil, binder sets a body and then returns nil like a vetoed reply, no binder at all); oracle: a taken frame equals the packed message in every field, an untaken frame in every header field, the binder runs once per frame and sees the frame's seq/type/method/metadata, the reader has consumed exactly the frames so far, sizes equal those of the frame decoded alone by the same kind of receiver, the exhausted stream yields an error; RETENTION: everything handed to the receiver for every frame (the messages themselves when fresh, else the body objects, service method strings and status objects) is compared with what was packed again after the whole stream was decoded and once more after two rounds of same-sized follow-up frames with other contents were packed and unpacked on fresh protocol instances; non-trivial = >=2 frames and (a cycling small-chunk schedule or an untaken body followed by another frame)"
 
 func RunSpec(t *testing.T, spec ProtoSpec) {
 	t.Run("msg", func(t *testing.T) {
@@ -584,4 +636,255 @@ func mtypeClass(b byte) string {
 		return "mtype=" + strconv.Itoa(int(b))
 	}
 	return "mtype=other"
+}
+
+// ---- typed bodies and retention (stream check) ------------------------------------------
+
+// BodyKind says how the body of one frame is given to Pack and received from Unpack.
+type BodyKind string
+
+const (
+	BodyDefault         BodyKind = "default"            // the spec's own body (raw bytes: the documented codec bypass)
+	BodyPlainString     BodyKind = "plain:*string"      // plain codec, *string
+	BodyPlainNamed      BodyKind = "plain:*named-str"   // plain codec, pointer to a named string type
+	BodyPlainPP         BodyKind = "plain:**string"     // plain codec, pointer to pointer to string
+	BodyPlainPBytes     BodyKind = "plain:*[]byte"      // codec id plain, *[]byte
+	BodyPlainNamedBytes BodyKind = "plain:*named-bytes" // plain codec, pointer to a named []byte type
+	BodyJSONStruct      BodyKind = "json:struct"        // json codec, small struct
+)
+
+var bodyKindDist = []BodyKind{BodyDefault, BodyDefault, BodyDefault, BodyDefault, BodyPlainString, BodyPlainString, BodyPlainNamed, BodyPlainPP, BodyPlainPBytes, BodyPlainNamedBytes, BodyJSONStruct, BodyJSONStruct}
+
+// NamedStr and NamedBytes are receivers the plain codec reaches through reflection.
+type NamedStr string
+type NamedBytes []byte
+
+// JBody is the small struct carried by the json codec.
+type JBody struct {
+	A string   `json:"a"`
+	N int64    `json:"n"`
+	B []byte   `json:"b"`
+	L []string `json:"l,omitempty"`
+}
+
+func (j *JBody) canon() []byte {
+	if j == nil {
+		return nil
+	}
+	return []byte(fmt.Sprintf("A=%q N=%d B=%x L=%q", j.A, j.N, j.B, j.L))
+}
+
+func (j *JBody) clone() *JBody {
+	return &JBody{A: j.A, N: j.N, B: append([]byte(nil), j.B...), L: append([]string(nil), j.L...)}
+}
+
+type frameBody struct {
+	kind BodyKind
+	jb   *JBody // the packed value of a BodyJSONStruct frame
+}
+
+// genFrameBody draws the body kind of one frame and adapts the model: the codec id is the one of
+// the codec in use; the model's Body is the bytes the typed value stands for (plain codec: the
+// string's bytes; json struct: a canonical rendering of the struct, compared through typedBytes).
+func (spec ProtoSpec) genFrameBody(t *rapid.T, m *Msg) frameBody {
+	if spec.Build != nil || spec.BodyObj != nil || spec.Receiver != nil || spec.BodyOf != nil {
+		return frameBody{kind: BodyDefault}
+	}
+	if spec.NoTypedBody != nil && spec.NoTypedBody(*m) {
+		return frameBody{kind: BodyDefault}
+	}
+	fb := frameBody{kind: rapid.SampledFrom(bodyKindDist).Draw(t, "bodykind")}
+	switch fb.kind {
+	case BodyDefault:
+	case BodyJSONStruct:
+		m.Codec = 'j'
+		b := m.Body
+		if len(b) > 5000 {
+			b = b[:5000]
+		}
+		fb.jb = &JBody{
+			A: ValidUTF8(t, "jbody.a", 40),
+			N: rapid.Int64().Draw(t, "jbody.n"),
+			B: append([]byte{}, b...),
+		}
+		for i, n := 0, rapid.IntRange(0, 3).Draw(t, "jbody.nl"); i < n; i++ {
+			fb.jb.L = append(fb.jb.L, ValidUTF8(t, "jbody.l", 20))
+		}
+		m.Body = fb.jb.canon()
+	default:
+		m.Codec = 's'
+	}
+	return fb
+}
+
+// withFrameBody returns the spec as it applies to one frame with the given body kind.
+func (spec ProtoSpec) withFrameBody(fb frameBody) ProtoSpec {
+	if fb.kind == BodyDefault {
+		return spec
+	}
+	spec.Build = func(m Msg) socket.Message {
+		body := m.Body
+		m.Body = nil
+		out := m.Build()
+		switch fb.kind {
+		case BodyPlainString:
+			s := string(body)
+			out.SetBody(&s)
+		case BodyPlainNamed:
+			s := NamedStr(body)
+			out.SetBody(&s)
+		case BodyPlainPP:
+			s := string(body)
+			p := &s
+			out.SetBody(&p)
+		case BodyPlainPBytes:
+			b := append([]byte(nil), body...)
+			out.SetBody(&b)
+		case BodyPlainNamedBytes:
+			b := NamedBytes(append([]byte(nil), body...))
+			out.SetBody(&b)
+		case BodyJSONStruct:
+			out.SetBody(fb.jb.clone())
+		default:
+			panic("harness: unknown body kind " + string(fb.kind))
+		}
+		return out
+	}
+	spec.BodyObj = func() interface{} {
+		switch fb.kind {
+		case BodyPlainString:
+			return new(string)
+		case BodyPlainNamed:
+			return new(NamedStr)
+		case BodyPlainPP:
+			p := new(string)
+			return &p
+		case BodyPlainPBytes:
+			return new([]byte)
+		case BodyPlainNamedBytes:
+			return new(NamedBytes)
+		case BodyJSONStruct:
+			return new(JBody)
+		}
+		panic("harness: unknown body kind " + string(fb.kind))
+	}
+	spec.Receiver = func() socket.Message {
+		return socket.NewMessage(socket.WithNewBody(func(socket.Header) interface{} { return spec.BodyObj() }))
+	}
+	spec.BodyOf = typedBytes
+	return spec
+}
+
+// typedBytes renders a received typed body as the bytes the model's Body holds.
+func typedBytes(got socket.Message) []byte {
+	switch b := got.Body().(type) {
+	case nil:
+		return nil
+	case *string:
+		return []byte(*b)
+	case *NamedStr:
+		return []byte(*b)
+	case **string:
+		if *b == nil {
+			return []byte("<nil *string>")
+		}
+		return []byte(**b)
+	case *[]byte:
+		return *b
+	case *NamedBytes:
+		return []byte(*b)
+	case *JBody:
+		return b.canon()
+	}
+	return []byte(fmt.Sprintf("<%T>", got.Body()))
+}
+
+// churnVariant is a message of the same shape and sizes as m with other contents: body bytes,
+// metadata values and status texts are mapped onto letters (never onto themselves), everything
+// else but a long filter pipe is kept. It travels with the spec's default body.
+func (spec ProtoSpec) churnVariant(m Msg, fb frameBody, round int) Msg {
+	base := byte('a')
+	if round%2 == 1 {
+		base = 'A'
+	}
+	mapb := func(b []byte) []byte {
+		if b == nil {
+			return nil
+		}
+		out := make([]byte, len(b))
+		for i, c := range b {
+			out[i] = base + c%26
+		}
+		return out
+	}
+	c := m
+	if spec.Build == nil {
+		c.Body = mapb(m.Body)
+	}
+	// (cost: the follow-up traffic does not run long filter pipes again; filtered bodies do not
+	// live in the frame buffer anyway)
+	if len(m.Pipe) > 1 || round > 0 {
+		c.Pipe = nil
+	}
+	c.Meta = make([]KV, len(m.Meta))
+	for i, kv := range m.Meta {
+		c.Meta[i] = KV{K: kv.K, V: string(mapb([]byte(kv.V)))}
+	}
+	if m.HasStatus {
+		c.StatMsg = string(mapb([]byte(m.StatMsg)))
+		if m.HasCause {
+			c.Cause = string(mapb([]byte(m.Cause)))
+		}
+	}
+	return c
+}
+
+// retainedFrame is what the receiving side holds of one decoded frame.
+type retainedFrame struct {
+	how  string
+	want Msg
+	opts CompareOpts
+	// the message itself when every frame got a fresh one ...
+	msg socket.Message
+	// ... otherwise (one recycled message, like a session's read loop) what an application keeps
+	// beyond the next frame: the body object, the service method string and the status object
+	body   interface{}
+	method string
+	status *socket.Status
+}
+
+func retain(got socket.Message, recycled bool, want Msg, opts CompareOpts, how string) retainedFrame {
+	r := retainedFrame{how: how, want: want, opts: opts}
+	if !recycled {
+		r.msg = got
+		return r
+	}
+	r.body, r.method, r.status = got.Body(), got.ServiceMethod(), got.Status()
+	return r
+}
+
+func recheckKept(t *rapid.T, spec ProtoSpec, kept []retainedFrame, when string) {
+	for _, r := range kept {
+		if r.msg != nil {
+			if d := r.want.Compare(r.msg, r.opts); d != "" {
+				t.Fatalf("C05 violated: %s: %s was decoded correctly, but %s the retained message differs from what was packed: %s", spec.Name, r.how, when, d)
+			}
+			continue
+		}
+		if !r.opts.SkipMethod && r.method != r.want.Method {
+			t.Fatalf("C05 violated: %s: %s was decoded correctly, but %s the retained service method string reads %q, packed %q", spec.Name, r.how, when, r.method, r.want.Method)
+		}
+		if !r.opts.SkipStatus {
+			if g, w := TripleOf(r.status), r.want.ExpectedTriple(); g != w {
+				t.Fatalf("C05 violated: %s: %s was decoded correctly, but %s the retained status object reads %+v, packed %+v", spec.Name, r.how, when, g, w)
+			}
+		}
+		bodyOf := BodyBytes
+		if r.opts.BodyOf != nil {
+			bodyOf = r.opts.BodyOf
+		}
+		if gb := bodyOf(socket.NewMessage(socket.WithBody(r.body))); !bytes.Equal(gb, r.want.Body) {
+			t.Fatalf("C05 violated: %s: %s was decoded correctly, but %s the retained body object reads %s, packed %s", spec.Name, r.how, when, Hex(gb), Hex(r.want.Body))
+		}
+	}
 }
